@@ -4,7 +4,7 @@
 set -u
 export GOFLAGS=-mod=mod GOPROXY=off GOSUMDB=off GOTOOLCHAIN=local
 ID=$1; V=$2; PKG=$3
-WT=/tmp/wt_$ID; S=$WT/_seed
+WT=${WT_PREFIX:-/tmp/wt_}$ID; S=$WT/_seed
 cd $WT || exit 2
 git checkout -q -- . ; git clean -fdq -e _seed
 cp $S/demo_${V}_test.go $PKG/zz_seed_${V}_test.go
